@@ -69,13 +69,16 @@ CHECKS = {
         technique='TLA+ spec Linter.tla (project resolution, callee registration, cache read/miss/write of the file workers) '
                   'model-checked by TLC for every argument order and interleaving, with two counterexample guards; the '
                   'argument sequences are materialised as real sibling repositories and run through LintFiles vs LintFile; '
-                  'outcomes validated by TLC (EmissionTrace.tla); -race stress run; fingerprint of the built-in tables',
+                  'outcomes validated by TLC (EmissionTrace.tla); TLC simulation behaviours of LinterSim.tla (programs read off a '
+                  'recorded run) forced onto the real file goroutines through verif-tag hook points at the shared caches '
+                  '(scheduler gate) and compared with single-file runs; -race stress run; fingerprint of the built-in tables',
         text='The model proves attribution and per-file isolation for all orders/interleavings provided containment is '
              'segment-wise and the two interface derivations agree (both assumptions have a TLC counterexample when '
              'dropped); the real code is compared file by file against single-file runs for every argument sequence '
              'and GOMAXPROCS 1,2,16, and checked with the race detector and table fingerprints.',
-        note='race detector and free goroutine schedules observe only executed interleavings; 5-file layout with 2 '
-             'sibling repositories; callees well-formed'),
+        note='race detector and free goroutine schedules observe only executed interleavings; the gate forces 60 (quick) / '
+             '600 (thorough) sampled interleavings of the cache operations, not all; 5-file layout with 2 sibling '
+             'repositories plus targeted layouts; callees well-formed except in the shared-broken layout (reported once per run)'),
     'C12': dict(
         category='model_checking', design_ref='5 (C12), 3.1 Availability, 5.22',
         technique='TLA+ spec Availability.tla (GitHub table transcribed from the offline docs copy, position catalogue, KeyOf) '
